@@ -1,6 +1,7 @@
 #!/bin/bash
 # prep.sh <scratch-dir> [race]  : instrument /repo's working tree + the harness into a scratch
-# module and build the worker binary <scratch-dir>/vworker (-tags verif).
+# module and build the worker binary <scratch-dir>/vworker (-tags verif). With VERIF_CLI=1 also
+# <scratch-dir>/vc20, the scipipe CLI of that tree (un-instrumented) + harness/cmdhook/hook.go.
 set -e
 export GOFLAGS=-mod=mod GOPROXY=off GOSUMDB=off GOTOOLCHAIN=local
 S=$1; MODE=$2
@@ -15,12 +16,21 @@ EXTRA=""
 if [ -d $R/cmd/scipipe ]; then
   mkdir -p $S/cmdsrc && cp $R/cmd/scipipe/*.go $S/cmdsrc/ && rm -f $S/cmdsrc/*_test.go
   [ -f $V/harness/cmdhook/hook.go ] && cp $V/harness/cmdhook/hook.go $S/cmdsrc/zz_verif_hook.go
+  if [ -n "$VERIF_CLI" ]; then
+    # <scratch>/vc20: the scipipe CLI (+ the verification hook) built against an UN-instrumented
+    # copy of the tree under check (used by C20: audit2html / audit2tex / audit2bash)
+    mkdir -p $S/native/components $S/native/cmd/scipipe_verif
+    cp $R/go.mod $R/*.go $S/native/ && cp $R/components/*.go $S/native/components/
+    rm -f $S/native/*_test.go $S/native/components/*_test.go
+    cp $S/cmdsrc/*.go $S/native/cmd/scipipe_verif/
+    (cd $S/native && go build -o $S/vc20 ./cmd/scipipe_verif)
+  fi
 fi
 $V/bin/vinstr $FLAGS -typecheck-only vs \
   vs=$V/engine/vs=$S/vs \
   github.com/scipipe/scipipe=$R=$S/scipipe \
   github.com/scipipe/scipipe/components=$R/components=$S/scipipe/components \
-  vworker=$V/harness=$S/harness
+  vworker=$V/harness=$S/harness=norace
 cat > $S/scipipe/go.mod <<EOM
 module github.com/scipipe/scipipe
 
